@@ -558,7 +558,7 @@ def gen_cases(ctx: Ctx):
                     yield 'timeouts', dict(logics=[logic, 'CPL'], args=[argspec, 'ex:Addition'], opts=opts, ctor='kw',
                                            clock=clockmode, jump_at=j, ops=ops)
     # (d) free random interleavings
-    for _ in range(ctx.scale(1200, 40000)):
+    for _ in range(ctx.scale(1200, 15000)):
         logic, argspec = rng.choice(PAIRS)
         logic2, argspec2 = rng.choice(PAIRS)
         opts = {}
